@@ -25,6 +25,12 @@ namespace Tbox.C03
 @[simp] theorem serial_emit (s : State) (o : Out) : (s.emit o).serial = s.serial := rfl
 @[simp] theorem nEv_emit (s : State) (o : Out) : (s.emit o).nEv = s.nEv := rfl
 @[simp] theorem log_emit (s : State) (o : Out) : (s.emit o).log = o :: s.log := rfl
+@[simp] theorem breach_setEv (s : State) (e : Nat) (v : Ev) : (s.setEv e v).breach = s.breach := rfl
+@[simp] theorem isOpen_setEv (s : State) (e : Nat) (v : Ev) : (s.setEv e v).isOpen = s.isOpen := rfl
+@[simp] theorem breach_setRec (s : State) (f : Nat) (r : Option Rec) : (s.setRec f r).breach = s.breach := rfl
+@[simp] theorem isOpen_setRec (s : State) (f : Nat) (r : Option Rec) : (s.setRec f r).isOpen = s.isOpen := rfl
+@[simp] theorem breach_emit (s : State) (o : Out) : (s.emit o).breach = s.breach := rfl
+@[simp] theorem isOpen_emit (s : State) (o : Out) : (s.emit o).isOpen = s.isOpen := rfl
 @[simp] theorem upd_apply (k : Nat → Nat) (f v i : Nat) : upd k f v i = if i = f then v else k i := rfl
 
 @[simp] theorem evs_popBlock (s : State) : (popBlock s).1.evs = s.evs := by unfold popBlock; split <;> rfl
@@ -33,6 +39,10 @@ namespace Tbox.C03
 @[simp] theorem gen_popBlock (s : State) : (popBlock s).1.gen = s.gen := by unfold popBlock; split <;> rfl
 @[simp] theorem nEv_popBlock (s : State) : (popBlock s).1.nEv = s.nEv := by unfold popBlock; split <;> rfl
 @[simp] theorem log_popBlock (s : State) : (popBlock s).1.log = s.log := by unfold popBlock; split <;> rfl
+@[simp] theorem breach_popBlock (s : State) : (popBlock s).1.breach = s.breach := by unfold popBlock; split <;> rfl
+@[simp] theorem isOpen_popBlock (s : State) : (popBlock s).1.isOpen = s.isOpen := by unfold popBlock; split <;> rfl
+@[simp] theorem breach_pushBlock (s : State) (b : Nat) : (pushBlock s b).breach = s.breach := rfl
+@[simp] theorem isOpen_pushBlock (s : State) (b : Nat) : (pushBlock s b).isOpen = s.isOpen := rfl
 @[simp] theorem evs_pushBlock (s : State) (b : Nat) : (pushBlock s b).evs = s.evs := rfl
 @[simp] theorem recs_pushBlock (s : State) (b : Nat) : (pushBlock s b).recs = s.recs := rfl
 @[simp] theorem kern_pushBlock (s : State) (b : Nat) : (pushBlock s b).kern = s.kern := rfl
@@ -68,17 +78,22 @@ theorem cnt_congr {s s' : State} {b : Nat} {l : List Nat}
   apply List.countP_congr
   intro e he; rw [h e he]
 
-/-- the record after `reload` has a consistent cached mask and the kernel table follows it -/
-theorem reload_spec (k : Nat → Nat) (f : Nat) (r : Rec) (hk : k f = r.kev) :
-    (reload k f r).2 = { r with kev := maskOf r } ∧
-    (reload k f r).1 f = maskOf r ∧ ∀ g, g ≠ f → (reload k f r).1 g = k g := by
+/-- the record after `reload` has a consistent cached mask; the kernel table is touched only at `f`,
+where the descriptor ends up registered with exactly that mask or not registered at all; it follows
+the mask exactly when it was in step before and the descriptor is open -/
+theorem reload_spec (k : Nat → Nat) (op : Bool) (f : Nat) (r : Rec) (hk : k f = r.kev ∨ k f = 0) :
+    (reload k op f r).2 = { r with kev := maskOf r } ∧
+    ((reload k op f r).1 f = maskOf r ∨ (reload k op f r).1 f = 0) ∧
+    (∀ g, g ≠ f → (reload k op f r).1 g = k g) ∧
+    (k f = r.kev → op = true → (reload k op f r).1 f = maskOf r) := by
   unfold reload
-  by_cases h0 : r.kev = 0 <;> by_cases hn : maskOf r = 0 <;> simp [h0, hn, hk] <;> grind
+  cases op <;> by_cases h0 : r.kev = 0 <;> by_cases hn : maskOf r = 0 <;> by_cases hz : k f = 0 <;>
+    simp [h0, hn, hz] <;> grind
 
 theorem RecOk.transfer {s s' : State} {f : Nat} {r : Rec} (h : RecOk s f r)
     (hh : ∀ e, Holds s' f e ↔ Holds s f e) (hs : ∀ e, Subd s' f e ↔ Subd s f e)
     (hm : ∀ e ∈ r.subs, (s'.evs e).mask = (s.evs e).mask) (hk : s'.kern f = s.kern f)
-    (hser : s.serial ≤ s'.serial) (hg : s'.gen f = s.gen f) : RecOk s' f r where
+    (hser : s.serial ≤ s'.serial) (_hg : s'.gen f = s.gen f) : RecOk s' f r where
   ref_eq := h.ref_eq
   h_nodup := h.h_nodup
   h_iff := fun e => (h.h_iff e).trans (hh e).symm
@@ -89,9 +104,8 @@ theorem RecOk.transfer {s s' : State} {f : Nat} {r : Rec} (h : RecOk s f r)
   wr := by rw [cnt_congr hm]; exact h.wr
   ex := by rw [cnt_congr hm]; exact h.ex
   kev := h.kev
-  kern := by rw [hk]; exact h.kern
+  kor := by rw [hk]; exact h.kor
   ser := Nat.le_trans h.ser hser
-  inst := by rw [hg]; exact h.inst
 
 theorem cnt_append_single (s : State) (b : Nat) (l : List Nat) (e : Nat) :
     cnt s b (l ++ [e]) = inc (cnt s b l) (s.evs e).mask b := by
@@ -104,7 +118,7 @@ theorem enable_core (s : State) (e f : Nat) (r : Rec) (k : Nat → Nat) (h : Inv
     (hfd : (s.evs e).fd = f) (he : (s.evs e).enabled = false)
     (r1 : Rec) (hr1 : r1 = { r with rd := inc r.rd (s.evs e).mask 1, wr := inc r.wr (s.evs e).mask 2,
                                     ex := inc r.ex (s.evs e).mask 4, subs := r.subs ++ [e] })
-    (hkf : k f = maskOf r1) (hko : ∀ g, g ≠ f → k g = s.kern g) :
+    (hkf : k f = maskOf r1 ∨ k f = 0) (hko : ∀ g, g ≠ f → k g = s.kern g) :
     Inv (({ s with kern := k }.setRec f (some { r1 with kev := maskOf r1 })).setEv e
           { s.evs e with enabled := true }) := by
   have ok := h.recs f r hr
@@ -134,7 +148,6 @@ theorem enable_core (s : State) (e f : Nat) (r : Rec) (k : Nat → Nat) (h : Inv
       · rfl
       · exact hkf
       · exact ok.ser
-      · exact ok.inst
     · simp only [hff, ↓reduceIte] at hr'
       have ok' := h.recs f' r' hr'
       apply ok'.transfer
@@ -167,9 +180,9 @@ theorem enableEv_inv (s : State) (e : Nat) (h : Inv s) : Inv (enableEv s e).1 :=
         | none => exact absurd ⟨ha, hi, rfl⟩ ((h.norec _ hr).2 e)
         | some r =>
           have ok := h.recs _ r hr
-          obtain ⟨h2, hkf, hko⟩ := reload_spec s.kern (s.evs e).fd
+          obtain ⟨h2, hkf, hko, _⟩ := reload_spec s.kern (s.isOpen (s.evs e).fd) (s.evs e).fd
             { r with rd := inc r.rd (s.evs e).mask 1, wr := inc r.wr (s.evs e).mask 2,
-                     ex := inc r.ex (s.evs e).mask 4, subs := r.subs ++ [e] } ok.kern
+                     ex := inc r.ex (s.evs e).mask 4, subs := r.subs ++ [e] } ok.kor
           simp only [h2]
           have key := enable_core s e _ r _ h hr ha hi rfl (by simpa using he) _ rfl hkf hko
           simp only [ha, hi] at key
@@ -188,7 +201,7 @@ theorem disable_core (s : State) (e f : Nat) (r : Rec) (k : Nat → Nat) (h : In
     (hfd : (s.evs e).fd = f) (he : (s.evs e).enabled = true)
     (r1 : Rec) (hr1 : r1 = { r with rd := dec r.rd (s.evs e).mask 1, wr := dec r.wr (s.evs e).mask 2,
                                     ex := dec r.ex (s.evs e).mask 4, subs := r.subs.erase e })
-    (hkf : k f = maskOf r1) (hko : ∀ g, g ≠ f → k g = s.kern g) :
+    (hkf : k f = maskOf r1 ∨ k f = 0) (hko : ∀ g, g ≠ f → k g = s.kern g) :
     Inv (({ s with kern := k }.setRec f (some { r1 with kev := maskOf r1 })).setEv e
           { s.evs e with enabled := false }) := by
   have ok := h.recs f r hr
@@ -217,7 +230,6 @@ theorem disable_core (s : State) (e f : Nat) (r : Rec) (k : Nat → Nat) (h : In
       · rfl
       · exact hkf
       · exact ok.ser
-      · exact ok.inst
     · simp only [hff, ↓reduceIte] at hr'
       have ok' := h.recs f' r' hr'
       apply ok'.transfer
@@ -252,9 +264,9 @@ theorem disableEv_inv (s : State) (e : Nat) (h : Inv s) : Inv (disableEv s e).1 
         | some r =>
           have ok := h.recs _ r hr
           have hmem : e ∈ r.subs := (ok.s_iff e).2 ⟨⟨ha, hi, rfl⟩, he⟩
-          obtain ⟨h2, hkf, hko⟩ := reload_spec s.kern (s.evs e).fd
+          obtain ⟨h2, hkf, hko, _⟩ := reload_spec s.kern (s.isOpen (s.evs e).fd) (s.evs e).fd
             { r with rd := dec r.rd (s.evs e).mask 1, wr := dec r.wr (s.evs e).mask 2,
-                     ex := dec r.ex (s.evs e).mask 4, subs := r.subs.erase e } ok.kern
+                     ex := dec r.ex (s.evs e).mask 4, subs := r.subs.erase e } ok.kor
           have hc : r.subs.contains e = true := by simpa using hmem
           simp only [hc, h2, Bool.not_true, Bool.false_eq_true, ↓reduceIte]
           have key := disable_core s e _ r _ h hr ha hi rfl he _ rfl hkf hko
@@ -316,8 +328,10 @@ theorem detach_inv (s : State) (e : Nat) (h : Inv s) (ha : (s.evs e).alive = tru
         · subst hff
           refine ⟨?_, ?_⟩
           · show s.kern f' = 0
-            rw [ok.kern, ok.kev]
-            exact maskOf_zero (by rw [ok.rd, hsubs]; rfl) (by rw [ok.wr, hsubs]; rfl) (by rw [ok.ex, hsubs]; rfl)
+            rcases ok.kor with hk | hk
+            · rw [hk, ok.kev]
+              exact maskOf_zero (by rw [ok.rd, hsubs]; rfl) (by rw [ok.wr, hsubs]; rfl) (by rw [ok.ex, hsubs]; rfl)
+            · exact hk
           · intro x hx
             by_cases hxe : x = e
             · subst hxe; simp [Holds] at hx
@@ -361,9 +375,8 @@ theorem detach_inv (s : State) (e : Nat) (h : Inv s) (ha : (s.evs e).alive = tru
           · show r.ex = _
             rw [cnt_congr (s := s) (by intro x _; by_cases hx : x = e <;> simp [hx]), ok.ex]
           · exact ok.kev
-          · exact ok.kern
+          · exact ok.kor
           · exact ok.ser
-          · exact ok.inst
         · simp only [hff, ↓reduceIte] at hr'
           apply (h.recs f' r' hr').transfer
           · intro x; unfold Holds; by_cases hx : x = e <;> simp [hx]
@@ -422,9 +435,8 @@ theorem attach_inv (s : State) (e f : Nat) (h : Inv s) (ha : (s.evs e).alive = t
         · show r.ex = _
           rw [cnt_congr (s := s) (by intro x _; by_cases hx : x = e <;> simp [hx]), ok.ex]
         · exact ok.kev
-        · exact ok.kern
+        · exact ok.kor
         · exact ok.ser
-        · exact ok.inst
       · simp only [hff, ↓reduceIte] at hr'
         apply (h.recs f' r' hr').transfer
         · intro x; unfold Holds; by_cases hx : x = e <;> simp [hx, hi]
@@ -474,8 +486,7 @@ theorem attach_inv (s : State) (e f : Nat) (h : Inv s) (ha : (s.evs e).alive = t
         · rfl
         · rfl
         · rfl
-        · simpa [maskOf] using nr.1
-        · simp
+        · exact Or.inr (by simpa using nr.1)
         · simp
       · simp only [hff, ↓reduceIte] at hr'
         apply (h.recs f' r' hr').transfer
@@ -538,33 +549,32 @@ theorem setEv_inv (s : State) (e : Nat) (v' : Ev) (n' : Nat) (h : Inv s)
       | true => have := hlt hq; simp at hx; omega
     · simp only [evs_setEv, hxe, ↓reduceIte]; exact h.fresh x (Nat.le_trans hn hx)
 
-theorem closeFd_inv (s : State) (f : Nat) (h : Inv s) : Inv (closeFd s f).1 := by
+theorem closeFd_inv (s : State) (f : Nat) (ro : Bool) (h : Inv s) : Inv (closeFd s f ro).1 := by
   unfold closeFd
-  cases hr : s.recs f with
-  | some r => simpa using h
-  | none =>
-    simp only [Option.isSome_none, Bool.false_eq_true, ↓reduceIte]
-    refine ⟨?_, ?_, h.evs, h.fresh, h.log⟩
+  split
+  · exact h
+  · refine ⟨?_, ?_, h.evs, h.fresh, h.log⟩
     · intro f' r' hr'
-      have hff : f' ≠ f := fun hq => by subst hq; simp [hr] at hr'
-      apply (h.recs f' r' hr').transfer
-      · intro x; rfl
-      · intro x; rfl
-      · intro x _; rfl
-      · simp [hff]
-      · exact Nat.le_refl _
-      · simp [hff]
+      have ok := h.recs f' r' hr'
+      by_cases hff : f' = f
+      · subst hff
+        exact { ok with kor := Or.inr (by simp) }
+      · exact ok.transfer (fun _ => Iff.rfl) (fun _ => Iff.rfl) (fun _ _ => rfl) (by simp [hff]) (Nat.le_refl _)
+          (by simp [hff])
     · intro f' hn
       by_cases hff : f' = f
       · subst hff; exact ⟨by simp, (h.norec f' hn).2⟩
       · exact ⟨by simpa [hff] using (h.norec f' hn).1, (h.norec f' hn).2⟩
 
 /-- changes of the readiness the harness set up do not touch anything the invariant speaks about -/
-theorem readiness_inv (s : State) (rd wr : Nat → Bool) (h : Inv s) :
-    Inv { s with readable := rd, writable := wr } := by
-  refine ⟨?_, h.norec, h.evs, h.fresh, h.log⟩
-  intro f r hr
-  exact (h.recs f r hr).transfer (fun _ => Iff.rfl) (fun _ => Iff.rfl) (fun _ _ => rfl) rfl (Nat.le_refl _) rfl
+theorem setReady_inv (s : State) (f : Nat) (rd wr : Option Bool) (ob : Bool) (h : Inv s) :
+    Inv (setReady s f rd wr ob).1 := by
+  unfold setReady
+  split
+  · exact h
+  · refine ⟨?_, h.norec, h.evs, h.fresh, h.log⟩
+    intro f r hr
+    exact (h.recs f r hr).transfer (fun _ => Iff.rfl) (fun _ => Iff.rfl) (fun _ _ => rfl) rfl (Nat.le_refl _) rfl
 
 @[simp] theorem evs_unrefFd (s : State) (f e : Nat) : (unrefFd s f e).evs = s.evs := by
   unfold unrefFd; split
@@ -690,9 +700,11 @@ theorem act_inv (s : State) (a : Act) (h : Inv s) : Inv (act s a).1 := by
   | enable e => exact enableEv_inv s e h
   | disable e => exact disableEv_inv s e h
   | destroy e => exact destroyEv_inv s e h
-  | close f => exact closeFd_inv s f h
-  | setR f b => exact readiness_inv s _ _ h
-  | setW f b => exact readiness_inv s _ _ h
+  | close f => exact closeFd_inv s f true h
+  | kill f => exact closeFd_inv s f false h
+  | setR f b => exact setReady_inv s f _ _ _ h
+  | setW f b => exact setReady_inv s f _ _ _ h
+  | oob f => exact setReady_inv s f _ _ _ h
 
 theorem runScript_inv (sc : List Act) : ∀ (s : State), Inv s → Inv (runScript s sc) := by
   induction sc with
@@ -730,7 +742,8 @@ theorem Prov.trans {a b c : State} (h1 : Prov a b) (h2 : Prov b c) : Prov a c :=
     · exact Or.inr (by omega)
   · exact Or.inr (by have := h1.ser; omega)
 
-theorem reload_snd (k : Nat → Nat) (f : Nat) (r : Rec) : (reload k f r).2 = { r with kev := maskOf r } := by
+theorem reload_snd (k : Nat → Nat) (op : Bool) (f : Nat) (r : Rec) :
+    (reload k op f r).2 = { r with kev := maskOf r } := by
   unfold reload; dsimp only
   split <;> (try split) <;> (try split) <;> rfl
 
@@ -833,6 +846,12 @@ theorem destroyEv_prov (s : State) (e : Nat) : Prov s (destroyEv s e).1 := by
   · exact (disableEv_prov s e).trans (detach_prov _ e)
   · exact disableEv_prov s e
 
+theorem setReady_prov (s : State) (f : Nat) (rd wr : Option Bool) (ob : Bool) :
+    Prov s (setReady s f rd wr ob).1 := by
+  unfold setReady; split
+  · exact Prov.refl s
+  · exact prov_of_recs (by exact Nat.le_refl _) (fun _ r' h => ⟨r', h, rfl, rfl⟩)
+
 theorem act_prov (s : State) (a : Act) : Prov s (act s a).1 := by
   cases a with
   | init e f m o => exact initEv_prov s e f m o
@@ -840,23 +859,32 @@ theorem act_prov (s : State) (a : Act) : Prov s (act s a).1 := by
   | disable e => exact disableEv_prov s e
   | destroy e => exact destroyEv_prov s e
   | close f =>
-    show Prov s (closeFd s f).1
+    show Prov s (closeFd s f true).1
     unfold closeFd; split
     · exact Prov.refl s
     · exact prov_of_recs (by exact Nat.le_refl _) (fun _ r' h => ⟨r', h, rfl, rfl⟩)
-  | setR f b => exact prov_of_recs (by exact Nat.le_refl _) (fun _ r' h => ⟨r', h, rfl, rfl⟩)
-  | setW f b => exact prov_of_recs (by exact Nat.le_refl _) (fun _ r' h => ⟨r', h, rfl, rfl⟩)
+  | kill f =>
+    show Prov s (closeFd s f false).1
+    unfold closeFd; split
+    · exact Prov.refl s
+    · exact prov_of_recs (by exact Nat.le_refl _) (fun _ r' h => ⟨r', h, rfl, rfl⟩)
+  | setR f b => exact setReady_prov s f _ _ _
+  | setW f b => exact setReady_prov s f _ _ _
+  | oob f => exact setReady_prov s f _ _ _
 
 theorem runScript_prov (sc : List Act) : ∀ s : State, Prov s (runScript s sc) := by
   induction sc with
   | nil => intro s; exact Prov.refl s
   | cons a as ih => intro s; exact (act_prov s a).trans (ih _)
 
-theorem PassInv.step {w : Wait} {s s' : State} (hp : PassInv w s) (hv : Prov s s') : PassInv w s' := by
-  refine ⟨Nat.le_trans hp.ser hv.ser, ?_⟩
+theorem PassInv.step {w : Wait} {s s' : State} (hp : PassInv w s) (hv : Prov s s') : PassInv w s' :=
+  ⟨Nat.le_trans hp.ser hv.ser⟩
+
+theorem PassSync.step {w : Wait} {s s' : State} (hp : PassInv w s) (hq : PassSync w s) (hv : Prov s s') :
+    PassSync w s' := by
   intro f r' hr' hle
   rcases hv.recs f r' hr' with ⟨r, hr, e1, e2⟩ | hlt
-  · rw [e2]; exact hp.inst f r hr (by omega)
+  · rw [e2]; exact hq f r hr (by omega)
   · have := hp.ser; omega
 
 theorem emit_inv (s : State) (o : Out) (h : Inv s) (ho : OutOk o) : Inv (s.emit o) := by
@@ -896,21 +924,19 @@ theorem enterEvent_ok {w : Wait} {s : State} {f m e : Nat} {r : Rec} (h : Inv s)
   simp only [ha, Bool.not_true, Bool.false_eq_true, ↓reduceIte]
   by_cases hb : hasBit (s.evs e).mask m = true
   · simp only [hb, Bool.not_true, Bool.false_eq_true, ↓reduceIte]
-    have hgen : (s.gen (s.evs e).fd == w.gen (s.evs e).fd) = true := by
-      rw [hfd, ← ok.inst, hp.inst f r hrec hser]; simp
     have hin : w.ready.contains (f, m) = true := by simpa using hr
     by_cases ho : (s.evs e).oneshot = true
     · simp only [ho, ↓reduceIte]
       obtain ⟨_, _, hoth, hev⟩ := disableEv_frame s e h
       simp only [ha, ↓reduceIte] at hev
       refine ⟨emit_inv _ _ (disableEv_inv s e h) ?_, (disableEv_prov s e).trans (emit_prov _ _), ?_, ?_⟩
-      · exact ⟨rfl, hen, rfl, hfd, hgen, hin, fun _ => by simp [hev]⟩
+      · exact ⟨rfl, hen, rfl, hfd, hin, fun _ => by simp [hev]⟩
       · intro i hi'; simp [hoth i hi']
       · simp [hev]
     · have ho' : (s.evs e).oneshot = false := by simpa using ho
       simp only [ho', Bool.false_eq_true, ↓reduceIte]
       refine ⟨emit_inv _ _ h ?_, emit_prov _ _, fun _ _ => rfl, by first | rfl | trivial⟩
-      exact ⟨rfl, hen, rfl, hfd, hgen, hin, fun hc => by simp at hc⟩
+      exact ⟨rfl, hen, rfl, hfd, hin, fun hc => by simp at hc⟩
   · have hb' : hasBit (s.evs e).mask m = false := by simpa using hb
     simp only [hb', Bool.not_false, ↓reduceIte]
     exact ⟨h, Prov.refl s, by simp, by simp⟩
@@ -960,17 +986,35 @@ theorem foldl_dispatch_ok (w : Wait) (l : List (Nat × Nat)) :
     obtain ⟨h1, hp1⟩ := dispatchFd_ok w s fm (hsub fm List.mem_cons_self) h hp
     exact ih _ (fun x hx => hsub x (List.mem_cons_of_mem _ hx)) h1 hp1
 
-theorem passInv_start (s : State) (ready : List (Nat × Nat)) (h : Inv s) : PassInv (waitOf s ready) s :=
-  ⟨Nat.le_refl _, fun f r hr _ => (h.recs f r hr).inst⟩
+theorem passInv_start (s : State) (ready : List (Nat × Nat)) : PassInv (waitOf s ready) s :=
+  ⟨Nat.le_refl _⟩
 
 theorem pass_inv (s : State) (ready : List (Nat × Nat)) (h : Inv s) : Inv (pass s ready) :=
-  (foldl_dispatch_ok (waitOf s ready) ready s (fun _ hx => hx) h (passInv_start s ready h)).1
+  (foldl_dispatch_ok (waitOf s ready) ready s (fun _ hx => hx) h (passInv_start s ready)).1
+
+theorem disableAll_inv (l : List Nat) : ∀ s : State, Inv s → Inv (l.foldl (fun s e => (disableEv s e).1) s) := by
+  induction l with
+  | nil => intro s h; exact h
+  | cons e rest ih => intro s h; exact ih _ (disableEv_inv s e h)
+
+theorem removeInvalid_inv (fds : List Nat) : ∀ s : State, Inv s → Inv (removeInvalid s fds) := by
+  unfold removeInvalid
+  induction fds with
+  | nil => intro s h; exact h
+  | cons f rest ih =>
+    intro s h
+    simp only [List.foldl_cons]
+    apply ih
+    split
+    · exact h
+    · exact disableAll_inv _ s h
 
 theorem step_inv (s : State) (st : Step) (h : Inv s) : Inv (step s st) := by
   cases st with
   | newEv sc => exact newEv_inv s sc h
   | api a => exact act_inv s a h
   | pass be r => exact pass_inv s r h
+  | badfPass fds => exact removeInvalid_inv fds s h
 
 /-- every state reachable from `init` satisfies the invariant -/
 theorem exec_inv (sts : List Step) : ∀ (s : State), Inv s → ∀ s', exec s sts = some s' → Inv s' := by
